@@ -4,7 +4,7 @@ import AmaranthVerif.Driver.ExprIO
 
 open Amaranth
 
-def handlers : List (Sexp → Option String) := [handleExpr]
+def handlers : List (Sexp → Option String) := [handleExpr, handleAssign]
 
 def respond (line : String) : String :=
   match Sexp.parse line with
